@@ -24,6 +24,13 @@ def gen(ctx, rng, per):
                 tol = 10.0 ** (-rng.uniform(3, 10))
                 cases.append(ivpgen.accuracy_case(rng, solver, fam, tol))
                 cases[-1]["acc"] = "local"
+        # large states: the tolerance is absolute, so it must be met for |y| >> 1 too (linear families, exact flows)
+        for amp in (30.0, 1000.0):
+            for fam in (["lin"], ["rot", "lin"]):
+                for _ in range(max(1, per // 3)):
+                    tol = 10.0 ** (-rng.uniform(3, 9))
+                    cases.append(ivpgen.accuracy_case(rng, solver, fam, tol, amp=amp))
+                    cases[-1]["acc"] = "local"
     return cases
 
 
